@@ -332,36 +332,44 @@ func (n *BaseNode) AppendChild(self, v Node) {
 // ReplaceChild implements Node.ReplaceChild .
 func (n *BaseNode) ReplaceChild(self, v1, insertee Node) {
 	n.InsertBefore(self, v1, insertee)
-	n.RemoveChild(self, v1)
+	if v1 != nil {
+		n.RemoveChild(self, v1)
+	}
 }
 
 // InsertAfter implements Node.InsertAfter .
 func (n *BaseNode) InsertAfter(self, v1, insertee Node) {
+	if v1 == nil || v1.Parent() != self {
+		n.AppendChild(self, insertee)
+		return
+	}
+	if v1.NextSibling() == insertee {
+		// insertee is already placed after v1
+		return
+	}
 	n.InsertBefore(self, v1.NextSibling(), insertee)
 }
 
 // InsertBefore implements Node.InsertBefore .
 func (n *BaseNode) InsertBefore(self, v1, insertee Node) {
-	n.childCount++
-	if v1 == nil {
+	if v1 == nil || v1.Parent() != self {
 		n.AppendChild(self, insertee)
 		return
 	}
 	ensureIsolated(insertee)
-	if v1.Parent() == self {
-		c := v1
-		prev := c.PreviousSibling()
-		if prev != nil {
-			prev.SetNextSibling(insertee)
-			insertee.SetPreviousSibling(prev)
-		} else {
-			n.firstChild = insertee
-			insertee.SetPreviousSibling(nil)
-		}
-		insertee.SetNextSibling(c)
-		c.SetPreviousSibling(insertee)
-		insertee.SetParent(self)
+	n.childCount++
+	c := v1
+	prev := c.PreviousSibling()
+	if prev != nil {
+		prev.SetNextSibling(insertee)
+		insertee.SetPreviousSibling(prev)
+	} else {
+		n.firstChild = insertee
+		insertee.SetPreviousSibling(nil)
 	}
+	insertee.SetNextSibling(c)
+	c.SetPreviousSibling(insertee)
+	insertee.SetParent(self)
 }
 
 // OwnerDocument implements Node.OwnerDocument.
